@@ -39,8 +39,15 @@ namespace ST { namespace verif_controls
         return s;
     }
 
+    // R06.7: decides equality of two strings with a primitive that stops at the first NUL
+    inline bool same_text(const ST::string &a, const ST::string &b)
+    {
+        return strcmp(a.c_str(), b.c_str()) == 0;
+    }
+
     void use_all(const ST::string &s, char *t)
     {
+        (void)same_text(s, s);
         (void)alias_of(s);
         (void)static_scratch(1);
         count_call();
